@@ -135,6 +135,12 @@ def run(e: Engine, rep: Report):
              'empty constant on every normal return - left-overs of a '
              'finished reply are taken for the beginning of the next one')
     f14(e, rep)
+    from . import c17 as _c17
+    common.reuse(e, rep, _c17.w12, 'F15',
+                 '= C17-W12: a reply is refused on whole lines only (a '
+                 'verdict on a fragment pops the Reply and leaves the rest '
+                 'of the reply to be taken for the next command\'s answer)',
+                 only={'W12'})
     rep.floor('F2', 14, 'command methods')
 
 
